@@ -6,6 +6,7 @@ import PrologVerif.Driver.C08
 import PrologVerif.Driver.C14
 import PrologVerif.Driver.C11
 import PrologVerif.Driver.C19
+import PrologVerif.Driver.C07
 open PrologVerif PrologVerif.Driver
 
 def handlers : List (String × Handler) :=
@@ -22,7 +23,9 @@ def handlers : List (String × Handler) :=
     ("c11.collect.pinned", C11.handlerPinned),
     ("c11.variant", C11.variantHandler),
     ("c19.ops", C19.handler),
-    ("c19.out", C19.outHandler) ]
+    ("c19.out", C19.outHandler),
+    ("c07.kernels", C07.kernelsHandler),
+    ("c07.queries", C07.queriesHandler) ]
 
 partial def loop (h : IO.FS.Stream) (out : IO.FS.Stream) (f : Handler) : IO Unit := do
   let line ← h.getLine
